@@ -207,6 +207,98 @@ Proof.
     symmetry. apply N.leb_le. exact El.
 Qed.
 
+(* ---------------------------------------------------------------- *)
+(* EAGAINs that come in runs of at most EAGAIN_MAX+1 never end the connection,
+   however many there are in total: the counter is reset by every successful
+   send().  Send-only traces (nothing is received: a slow, silent server), text
+   with a UTF-8 encoding. *)
+Fixpoint eagain_runs_ok (r : N) (tr : list event) : bool :=
+  match tr with
+  | [] => true
+  | EvSend msgs s :: t =>
+      forallb encodable (concat msgs) &&
+      match s with
+      | Sent _ => eagain_runs_ok 0 t
+      | SErr c => (c =? gen.T11.EAGAIN) && (r <=? gen.T11.EAGAIN_MAX) && eagain_runs_ok (r + 1) t
+      end
+  | EvRead _ _ _ :: _ => false
+  end.
+
+(* r = number of EAGAIN events immediately before *)
+Definition KInv (st : state) (r : N) : Prop :=
+  connected st = true /\ dead st = None /\ eagains st <= r /\ (outbuffer st = [] -> eagains st = 0).
+
+Lemma kinv_sent st r msgs k :
+  KInv st r -> forallb encodable (concat msgs) = true -> KInv (step st (EvSend msgs (Sent k))) 0.
+Proof.
+  destruct st as [c d e ib ob w t q rc dl]. unfold KInv.
+  cbn [dead connected outbuffer eagains]. intros (-> & -> & He & Hz) Hm.
+  unfold Model.step, Model.send_if_msgs, Model.enqueue, encode_str.
+  cbn [dead connected negb]. rewrite Hm. cbn [dead]. unfold Model.try_send. cbn [outbuffer].
+  destruct (ob ++ utf8 (concat msgs)) as [|c0 ob'] eqn:Eo; cbn [dead connected outbuffer eagains].
+  - apply app_eq_nil in Eo as [Eo _]. rewrite (Hz Eo). repeat split; auto; try lia.
+  - repeat split; auto; try lia; try discriminate.
+Qed.
+
+Lemma kinv_eagain st r msgs :
+  KInv st r -> forallb encodable (concat msgs) = true -> r <= gen.T11.EAGAIN_MAX ->
+  KInv (step st (EvSend msgs (SErr gen.T11.EAGAIN))) (r + 1).
+Proof.
+  destruct st as [c d e ib ob w t q rc dl]. unfold KInv.
+  cbn [dead connected outbuffer eagains]. intros (-> & -> & He & Hz) Hm Hr.
+  unfold Model.step, Model.send_if_msgs, Model.enqueue, encode_str.
+  cbn [dead connected negb]. rewrite Hm. cbn [dead]. unfold Model.try_send. cbn [outbuffer].
+  destruct (ob ++ utf8 (concat msgs)) as [|c0 ob'] eqn:Eo; cbn [dead connected outbuffer eagains].
+  - apply app_eq_nil in Eo as [Eo _]. rewrite (Hz Eo). repeat split; auto; try lia.
+  - unfold Model.handle_error, Model.set_conn, Model.set_eagains. cbn [eagains].
+    rewrite N.eqb_refl. cbn [negb orb].
+    assert (El : (gen.T11.EAGAIN_MAX <? e) = false) by (apply N.ltb_ge; lia).
+    rewrite El. cbn [dead connected outbuffer eagains]. repeat split; auto; try lia; try discriminate.
+Qed.
+
+Lemma kinv_run tr : forall st r,
+  KInv st r -> eagain_runs_ok r tr = true ->
+  connected (run_trace st tr) = true /\ dead (run_trace st tr) = None.
+Proof.
+  induction tr as [|ev tr IH]; intros st r HK Hok.
+  - destruct HK as (A & B & _). auto.
+  - destruct ev as [msgs s|? ? ?]; [|discriminate].
+    cbn [eagain_runs_ok] in Hok. apply andb_true_iff in Hok as [Hm Hok].
+    cbn [Model.run_trace fold_left]. destruct s as [k|c].
+    + apply (IH _ 0); [apply (kinv_sent st r); assumption|exact Hok].
+    + apply andb_true_iff in Hok as [Hok Ht]. apply andb_true_iff in Hok as [Hc Hr].
+      apply N.eqb_eq in Hc. subst c. apply N.leb_le in Hr.
+      apply (IH _ (r + 1)); [apply kinv_eagain; assumption|exact Ht].
+Qed.
+
+Theorem out_eagain_runs_survive tr :
+  eagain_runs_ok 0 tr = true ->
+  let st := run_trace (init M) tr in
+  connected st = true /\ dead st = None /\ wire st ++ outbuffer st = utf8 (taken st).
+Proof.
+  intro Hok. cbn zeta.
+  assert (H0 : KInv (init M) 0) by (repeat split; cbn; auto; lia).
+  destruct (kinv_run tr _ _ H0 Hok) as [A B]. repeat split; auto.
+  destruct (out_stream tr) as [H1 [H2|(H2 & _)]]; cbn zeta in *; [|congruence].
+  rewrite H2. exact H1.
+Qed.
+
+(* ... and sends accepting at least one byte then put every byte on the wire *)
+Theorem out_eagain_runs_deliver tr ks :
+  eagain_runs_ok 0 tr = true ->
+  Forall (fun k => 1 <= k) ks ->
+  (length (outbuffer (run_trace (init M) tr)) <= length ks)%nat ->
+  let st' := run_trace (init M) (tr ++ drains ks) in
+  connected st' = true /\ dead st' = None /\ outbuffer st' = [] /\
+  wire st' = utf8 (taken (run_trace (init M) tr)).
+Proof.
+  intros Hok Hk Hl. cbn zeta. unfold Model.run_trace. rewrite fold_left_app.
+  fold (run_trace (init M) tr). fold (run_trace (run_trace (init M) tr) (drains ks)).
+  destruct (out_eagain_runs_survive tr Hok) as (A & B & C). cbn zeta in *.
+  destruct (out_progress ks _ B A Hk Hl) as (D & E & F & _ & G). cbn zeta in *.
+  repeat split; auto. rewrite G. exact C.
+Qed.
+
 End Out.
 
 (* ---------------------------------------------------------------- *)
